@@ -272,6 +272,33 @@ def body(run):
             problems['gain band valid where source or reference is not'] = [int(x) for x in np.argwhere(gain_valid & ~joint)[0]]
         if problems:
             run.add_violation('parameter image is not the model that was applied', desc, observed=problems, signature=dict(kind='layout-e2e', parts=sorted(problems)))
+    # ---- bands with different footprints: the parameter bands of EACH band are valid wherever that band of the source and the reference are (a
+    #      block that is empty in one band is not empty in the next)
+    from harness import impl_e2e as e2e
+    for k in range(run.scale(3, 12)):
+        model = ['gain', 'gain-offset', 'gain-blk-offset'][k % 3]
+        bc = e2e.band_footprints_case(run.work, rng, model=model, tag='bf', threads=[1, 2][k % 2])
+        P = bc['res']['param']
+        dist['band-footprints/' + model] = dist.get('band-footprints/' + model, 0) + 1
+        run.count_case(('bf', k), True, bc['desc'] if k < 1 else None)
+        problems = {}
+        for b in range(2):
+            gv = np.isfinite(P['array'][b]) if P['count'] >= 2 else None
+            if gv is None or gv.shape != bc['valid'][b].shape:
+                problems['parameter image shape'] = [P['count'], list(P['array'].shape)]
+                break
+            lost = bc['valid'][b] & ~gv
+            if model == 'gain-offset':
+                # (a window with fewer than two valid pixels has no gain-offset solution: D13, not judged here - band 1's border column only)
+                pad = np.pad(bc['valid'][b], 1)
+                cnt = sum(pad[i:i + gv.shape[0], j:j + gv.shape[1]].astype(int) for i in range(3) for j in range(3))
+                lost &= cnt >= 2
+            if lost.any():
+                problems[f'gain of band {b + 1} invalid where source band {b + 1} and the reference are valid'] = dict(pixel=[int(x) for x in np.argwhere(lost)[0]], n=int(lost.sum()))
+            if (gv & ~bc['valid'][b]).any():
+                problems[f'gain of band {b + 1} valid where source band {b + 1} is not'] = [int(x) for x in np.argwhere(gv & ~bc['valid'][b])[0]]
+        if problems:
+            run.add_violation('parameter image is not the model that was applied', bc['desc'], observed=problems, signature=dict(kind='layout-e2e', parts=sorted(problems)))
     failing, nt = run.corr('layout', 'Corr.CheckC14', cases)
     for k in failing[:5]:
         run.add_break('correspondence-break', 'parameter image band layout / labels differ from Grid.Layout (param_index, label_of, validator)', metas[k])
